@@ -97,7 +97,8 @@ CharacterizeFails(e) ==
   IN \* the same plasmid in another letter case / at another origin is given the same type (or the same refusal)
      (IF twin.by = "case" THEN Chk("C18:CaseInvCharacterize", twin.res.cls = e.res.cls /\ twin.res.exc = e.res.exc) ELSE {})
      \cup (IF twin.by = "rot" /\ IsNucWord(w)
-           THEN IF \A i \in 1..Len(e.cands) : Len(e.cands[i].toks) > 0 => UniqueStart(e.cands[i].toks, w)
+           \* (no candidate type finds its structure at two places: each candidate's verdict is then origin-independent by C02)
+           THEN IF \A i \in 1..Len(e.cands) : Len(e.cands[i].toks) > 0 => Cardinality(Starts(e.cands[i].toks, w, TRUE)) <= 1
                 THEN Chk("C02:RotInvCharacterize", twin.res.cls = e.res.cls /\ twin.res.exc = e.res.exc)
                 ELSE {"S:C02Precondition"}
            ELSE {})
